@@ -434,6 +434,29 @@ pub fn c04(a: &Args) {
             }
         }
     }
+    // the CSV writer on a path that already holds a longer table: the file must be exactly the new table
+    {
+        let mut r4 = rng.fork();
+        let cfg3 = space_cfg(a, false);
+        let mut pool: Vec<(GenFile, TT)> = Vec::new();
+        let mut seen = 0usize;
+        for_each_model(&cfg3, &mut r4, |file, tt| { seen += 1; if pool.len() < (if a.thorough() { 120 } else { 30 }) && tt.count() > 0 && seen % 9 == 4 { pool.push((file.clone(), tt.clone())); } });
+        pool.sort_by_key(|(f, _)| std::cmp::Reverse(f.n));          // larger tables first, so later ones are shorter
+        let path = format!("{}/reused.csv", a.out);
+        let _ = std::fs::remove_file(&path);
+        for (file, tt) in pool {
+            let Some(mut d) = load_or_fail(&mut out, &file) else { continue };
+            out.eval(Some(format!("{}|csv over an existing file", file.text())));
+            out.count("csv_over_existing_file", 1);
+            if guarded(|| d.card_of_each_feature_csv(std::path::Path::new(&path)).map_err(|e| e.to_string())).map(|r| r.is_err()).unwrap_or(true) { out.fail("csv-writer", &file.text(), "card_of_each_feature_csv", "error / panic", "a table"); continue; }
+            let text = std::fs::read_to_string(&path).unwrap_or_default();
+            let lines: Vec<&str> = text.lines().collect();
+            let total = tt.count();
+            let ok = lines.len() == file.n as usize && lines.iter().enumerate().all(|(i, l)| { let c: Vec<&str> = l.split(',').collect(); let w = tt.count_with(&[i as i32 + 1]);
+                c.len() == 3 && c[0] == (i + 1).to_string() && c[1] == w.to_string() && c[2].parse::<f64>().map(|r| (r - w as f64 / total as f64).abs() <= 1e-9).unwrap_or(false) });
+            if !ok { out.fail("csv-over-existing-file", &file.text(), "card_of_each_feature_csv on a path holding an earlier, longer table", &text.replace('\n', " / "), &format!("{} rows f,cardinality,ratio", file.n)); }
+        }
+    }
     // CSV writer and corpus
     let tmp = format!("{}/fcs.csv", a.out);
     for (path, tf) in corpus(a.thorough()) {
